@@ -408,6 +408,53 @@ func (st *State) external(caller *frame, fn *ssa.Function, args []Value) Value {
 			}
 		}
 		return nil
+	case "(*strings.Builder).WriteString", "(*strings.Builder).WriteByte", "(*strings.Builder).WriteRune", "(*strings.Builder).Write":
+		b := (*args[0].(*Value)).(Struct)
+		buf, _ := b[1].(Slice)
+		n := 0
+		switch name {
+		case "(*strings.Builder).WriteString":
+			for _, t := range strBytes(st.strArg(args[1])) {
+				buf = append(buf, t)
+				n++
+			}
+		case "(*strings.Builder).Write":
+			for _, t := range args[1].(Slice) {
+				buf = append(buf, t)
+				n++
+			}
+		case "(*strings.Builder).WriteByte":
+			buf = append(buf, args[1].(*Term))
+			n = 1
+		default:
+			for _, t := range strBytes(st.conv(types.Typ[types.String], types.Typ[types.Rune], args[1])) {
+				buf = append(buf, t)
+				n++
+			}
+		}
+		b[1] = buf
+		if name == "(*strings.Builder).WriteByte" {
+			return Iface{}
+		}
+		return Tuple{ConstInt(64, int64(n)), Iface{}}
+	case "(*strings.Builder).String":
+		b := (*args[0].(*Value)).(Struct)
+		buf, _ := b[1].(Slice)
+		bs := make([]*Term, len(buf))
+		for i, e := range buf {
+			bs[i] = e.(*Term)
+		}
+		return mkStr(bs)
+	case "(*strings.Builder).Len":
+		b := (*args[0].(*Value)).(Struct)
+		buf, _ := b[1].(Slice)
+		return ConstInt(64, int64(len(buf)))
+	case "(*strings.Builder).Reset":
+		b := (*args[0].(*Value)).(Struct)
+		b[1] = Slice(nil)
+		return nil
+	case "(*strings.Builder).Grow":
+		return nil
 	case "regexp.MustCompile":
 		return &Native{regexp.MustCompile(st.concStr(args[0], name))}
 	case "(*regexp.Regexp).ReplaceAllStringFunc":
